@@ -83,7 +83,7 @@ def _render_feature_structure(
         row_data.append(covered_text if covered_text is not None else _NULL_VALUE)
 
     if _is_array_fs(fs):
-        row_data.append(_render_feature_value(fs.elements, fs_id_to_anchor))
+        row_data.append(_render_feature_value(fs.elements, fs_id_to_anchor, (id(fs),)))
         return row_data
 
     for feature in sorted(type_.all_features, key=lambda v: v.name):
@@ -96,14 +96,18 @@ def _render_feature_structure(
     return row_data
 
 
-def _render_feature_value(feature_value: any, fs_id_to_anchor: Dict[int, str]) -> any:
+def _render_feature_value(feature_value: any, fs_id_to_anchor: Dict[int, str], active_arrays: tuple = ()) -> any:
     if feature_value is None:
         return _NULL_VALUE
     elif isinstance(feature_value, list):
-        return [_render_feature_value(e, fs_id_to_anchor) for e in feature_value]
+        return [_render_feature_value(e, fs_id_to_anchor, active_arrays) for e in feature_value]
     elif _is_array_fs(feature_value):
+        if id(feature_value) in active_arrays:
+            # An array which (transitively) contains itself is referred to by its anchor instead of its elements
+            return fs_id_to_anchor.get(feature_value.xmiID)
         if feature_value.elements is not None:
-            return [_render_feature_value(e, fs_id_to_anchor) for e in feature_value.elements]
+            active_arrays = active_arrays + (id(feature_value),)
+            return [_render_feature_value(e, fs_id_to_anchor, active_arrays) for e in feature_value.elements]
     elif _is_primitive_value(feature_value):
         return feature_value
     else:
